@@ -42,67 +42,98 @@ QTENS = shared.QTENS
 FCAST = shared.FCAST
 
 
+def _u8_safe(e, data: str) -> bool:
+  """Abstract dtype: is the value provably a uint8 array when `data` is one?"""
+  if isinstance(e, ast.Name):
+    return e.id == data
+  if isinstance(e, ast.Subscript):
+    return _u8_safe(e.value, data)
+  if isinstance(e, ast.Call):
+    nm = common.call_name(e)
+    if isinstance(e.func, ast.Attribute) and e.func.attr == 'astype' and e.args and defuse.norm(e.args[0]) in ('np.uint8', 'numpy.uint8'):
+      return True
+    if nm in ('np.pad', 'numpy.pad') and e.args:
+      return _u8_safe(e.args[0], data)
+    if nm in ('np.bitwise_or', 'np.bitwise_and', 'numpy.bitwise_or', 'numpy.bitwise_and') and len(e.args) == 2:
+      return all(_u8_safe(a, data) or isinstance(a, ast.Constant) for a in e.args) and any(_u8_safe(a, data) for a in e.args)
+    if nm in ('np.left_shift', 'np.right_shift') and len(e.args) == 2:
+      return False  # widening is numpy-version dependent: require an explicit astype(np.uint8)
+    if nm in ('np.append', 'np.concatenate', 'np.hstack', 'np.insert'):
+      kw = {k.arg: defuse.norm(k.value) for k in e.keywords}
+      return False  # a Python int operand promotes uint8 to int64
+    return False
+  if isinstance(e, ast.BinOp):
+    if isinstance(e.op, (ast.BitAnd, ast.BitOr)):
+      l, r = e.left, e.right
+      return (_u8_safe(l, data) and (isinstance(r, ast.Constant) or _u8_safe(r, data))) or (_u8_safe(r, data) and isinstance(l, ast.Constant))
+    return False
+  return False
+
+
+def _nibble_kind(e, data: str):
+  """'low' / 'high' / None for one operand of the final OR."""
+  txt = defuse.norm(e)
+  slices = [x for x in ast.walk(e) if isinstance(x, ast.Subscript) and isinstance(x.slice, ast.Slice) and isinstance(x.slice.step, ast.Constant) and x.slice.step.value == 2]
+  if len(slices) != 1:
+    return None, None
+  lo = slices[0].slice.lower
+  parity = 'even' if lo is None or (isinstance(lo, ast.Constant) and lo.value == 0) else ('odd' if isinstance(lo, ast.Constant) and lo.value == 1 else None)
+  shifted = any((isinstance(x, ast.BinOp) and isinstance(x.op, ast.LShift) and isinstance(x.right, ast.Constant) and x.right.value == 4) or
+                (isinstance(x, ast.Call) and common.call_name(x) in ('np.left_shift', 'numpy.left_shift') and len(x.args) == 2 and isinstance(x.args[1], ast.Constant) and x.args[1].value == 4)
+                for x in ast.walk(e))
+  masked = any(isinstance(x, ast.BinOp) and isinstance(x.op, ast.BitAnd) and any(isinstance(y, ast.Constant) and y.value == 15 for y in (x.left, x.right)) for x in ast.walk(e))
+  if shifted:
+    return 'high', parity
+  if masked:
+    return 'low', parity
+  return None, parity
+
+
 def r2_nibble_order(ctx):
   R = 'C05.R2'
-  ctx.rule(R, 'int4 packing: element 2i in the low nibble, 2i+1 in the high nibble, odd tail padded with 0', floor=1)
+  ctx.rule(R, 'int4 packing: element 2i in the low nibble, 2i+1 in the high nibble, odd tail padded with 0, bytes stay uint8', floor=1)
   f = ctx.repo.func(f'{QTENS}:_pack_data')
   ctx.instance(R)
-  data = f.pos_params[1]
-  arms = [n for n in f.node.body if isinstance(n, ast.If)]
-  if not arms:
-    raise index.AnalysisError(f'{f.fq}: packing branch not found')
-  body = ast.Module(body=arms[0].body, type_ignores=[])
-  defs = {}
-  for n in ast.walk(body):
-    if isinstance(n, ast.Assign) and isinstance(n.targets[0], ast.Name):
-      defs.setdefault(n.targets[0].id, []).append(n.value)
-
-  def slice_kind(e):
-    for x in ast.walk(e):
-      if isinstance(x, ast.Subscript) and isinstance(x.slice, ast.Slice) and isinstance(x.value, ast.Name) and x.value.id == data:
-        st = x.slice.step
-        lo = x.slice.lower
-        if isinstance(st, ast.Constant) and st.value == 2:
-          if lo is None or (isinstance(lo, ast.Constant) and lo.value == 0):
-            return 'even'
-          if isinstance(lo, ast.Constant) and lo.value == 1:
-            return 'odd'
-    return None
-
-  kinds = {name: slice_kind(vals[0]) for name, vals in defs.items()}
-  even = [n for n, k in kinds.items() if k == 'even']
-  odd = [n for n, k in kinds.items() if k == 'odd']
-  if not ctx.check(R, len(even) == 1 and len(odd) == 1, f.node, f, f'slices {kinds}', 'expected one even-index slice data[::2] and one odd-index slice data[1::2]'):
-    return
-  ev, od = defs[even[0]][0], defs[odd[0]][0]
-  evt, odt = defuse.norm(ev), defuse.norm(od)
-  ok_even = isinstance(ev, ast.BinOp) and isinstance(ev.op, ast.BitAnd) and any(isinstance(x, ast.Constant) and x.value == 15 for x in (ev.left, ev.right)) and '<<' not in evt and 'left_shift' not in evt
-  ctx.check(R, ok_even, f.node, f, f'even = {evt}', 'the even-index elements must be masked with 0x0F and stay in the low nibble')
-  shifted = ('np.left_shift(' in odt and odt.replace(' ', '').find(',4)') > 0) or '<< 4' in odt
-  ctx.check(R, shifted and '& 15' not in odt.split('left_shift')[0], f.node, f, f'odd = {odt}', 'the odd-index elements must be shifted left by 4 into the high nibble')
-  ctx.check(R, 'astype(np.uint8)' in odt or 'np.uint8' in odt, f.node, f, 'odd dtype', 'the shifted nibble must be truncated to 8 bits')
-  rets = [n for n in ast.walk(body) if isinstance(n, ast.Return)]
-  ok = len(rets) == 1 and isinstance(rets[0].value, (ast.Call, ast.BinOp))
-  if ok:
-    rv = rets[0].value
-    names = defuse.names_in(rv)
-    isor = (isinstance(rv, ast.Call) and common.call_name(rv) == 'np.bitwise_or') or (isinstance(rv, ast.BinOp) and isinstance(rv.op, ast.BitOr))
-    ok = isor and even[0] in names and odd[0] in names
-  ctx.check(R, ok, f.node, f, 'return even | odd', 'the packed byte must be the bitwise OR of the low (even) and high (odd) nibble')
-  pads = [c for c in common.calls_in(body) if common.call_name(c) == 'np.pad']
-  okp = False
-  for c in pads:
-    a = [defuse.norm(x) for x in c.args]
-    kw = {k.arg: defuse.norm(k.value) for k in c.keywords}
-    if a[:2] == [odd[0], '(0, 1)'] and kw.get('constant_values', '0') == '0':
-      st = common.stmt_of(f.node, c)
-      guards = [g for g in ast.walk(body) if isinstance(g, ast.If) and any(x is st for x in ast.walk(g))]
-      gt = ' '.join(defuse.norm(g.test) for g in guards)
-      if even[0] in gt and odd[0] in gt and 'shape' in gt:
-        okp = isinstance(st, ast.Assign) and isinstance(st.targets[0], ast.Name) and st.targets[0].id == odd[0]
-  ctx.check(R, okp, f.node, f, 'odd tail padding', 'with an odd element count the high-nibble array must be padded with one zero (otherwise the OR broadcasts / fails and the last value is lost)')
-  other = arms[0].orelse
-  ctx.check(R, len(other) == 1 and isinstance(other[0], ast.Return) and defuse.norm(other[0].value) == data, f.node, f, 'unpacked widths', 'wider data must be stored unchanged')
+  bits, data = f.pos_params[:2]
+  ps = [p for p in defuse.paths(f.node, keep=frozenset()) if p.raises is None]
+  packing = [p for p in ps if defuse.norm(p.ret) != data]
+  plain = [p for p in ps if defuse.norm(p.ret) == data]
+  if not packing:
+    raise index.AnalysisError(f'{f.fq}: no packing path found')
+  ctx.check(R, bool(plain), f.node, f, 'unpacked widths', 'wider data must be stored unchanged')
+  for p in packing:
+    ret = p.ret
+    ops = None
+    if isinstance(ret, ast.Call) and common.call_name(ret) in ('np.bitwise_or', 'numpy.bitwise_or') and len(ret.args) == 2:
+      ops = ret.args
+    elif isinstance(ret, ast.BinOp) and isinstance(ret.op, ast.BitOr):
+      ops = [ret.left, ret.right]
+    if ops is None and isinstance(ret, ast.Call) and isinstance(ret.func, ast.Attribute) and ret.func.attr == 'astype':
+      inner = ret.func.value
+      if isinstance(inner, ast.BinOp) and isinstance(inner.op, ast.BitOr):
+        ops = [inner.left, inner.right]
+      elif isinstance(inner, ast.Call) and common.call_name(inner) in ('np.bitwise_or',):
+        ops = inner.args
+    if ops is None:
+      raise index.AnalysisError(f'{f.fq}: packing path returns {defuse.norm(ret)[:80]}, not an OR of two nibble arrays')
+    kinds = [_nibble_kind(o, data) for o in ops]
+    want = {('low', 'even'), ('high', 'odd')}
+    ctx.check(R, set(kinds) == want, f.node, f, f'nibbles {kinds} when {p.cond_text()}',
+              f'packed byte is built from {kinds}; element 2i must go (masked with 0x0F) to the LOW nibble and element 2i+1 (shifted by 4) to the HIGH nibble')
+    ctx.check(R, _u8_safe(ret, data), f.node, f, f'dtype of {defuse.norm(ret)[:90]}',
+              'the packed array is not provably uint8 (an operation such as np.append with a Python int, or an unshielded shift, promotes it): '
+              'the flatbuffer then stores one 8-byte element per packed byte')
+  # odd tail: on some packing path the high-nibble operand (or the data) is padded by one zero
+  src = defuse.norm(f.node)
+  padded = any(any(k in defuse.norm(p.ret) for k in ('np.pad(', 'np.append(', 'np.concatenate(')) for p in packing)
+  guard = [p for p in packing if any('shape' in defuse.norm(c) or '% 2' in defuse.norm(c) or 'size' in defuse.norm(c) for c, _ in p.conds)]
+  ctx.check(R, padded and bool(guard), f.node, f, 'odd tail padding', 'with an odd element count the high-nibble array must be padded with one zero (the last value is otherwise lost / the OR fails)')
+  if padded and any('np.pad(' in defuse.norm(p.ret) for p in packing):
+    pads = [c for p in packing for c in defuse.calls_named(p.ret, ('pad',))]
+    ok = all(defuse.norm(c.args[1]) == '(0, 1)' and {k.arg: defuse.norm(k.value) for k in c.keywords}.get('constant_values', '0') == '0' for c in pads if len(c.args) > 1)
+    ctx.check(R, ok, f.node, f, 'pad (0, 1) with 0', 'the tail must be padded at the end with a zero nibble')
+  conds = {defuse.norm(c) for p in packing for c, t in p.conds}
+  ctx.check(R, any(bits in c for c in conds), f.node, f, f'band {sorted(conds)}', 'packing must be decided by the bit width')
 
 
 def r3_fp16(ctx):
